@@ -4,7 +4,8 @@ panic, abort, stack overflow or hang; every invocable of a built model returns a
 Fault enumeration: every single structural fault (see oracles/xml_faults.py for the classes) at every position of
 the models shipped with the repository and of generated models, sampled pairs of faults, byte-level corruption.
 Each mutated text goes to the driver's `probe` op (parse -> ModelEvaluator::new -> evaluate_invocable for every
-invocable name of the unmutated and of the mutated model, with the empty input and with the file's typical input)
+invocable name of the unmutated and of the mutated model, with the empty input, the file's typical input and a
+wrong-typed variant of it)
 on both builds.  The oracle is the validity predicate of the property: any answer (parse error, build error, values)
 passes; a panic, a dead driver (abort / stack overflow; confirmed alone in a fresh driver) or a confirmed hang fails.
 """
@@ -44,8 +45,26 @@ def base_key(base):
     return base["file"] if "file" in base else "gen:" + ",".join(map(str, base["gen"]))
 
 
+def hostile(v):
+    """The typical value bent out of shape: numbers <-> strings, booleans -> null, contexts wrapped in a list (with an
+    extra entry), lists replaced by their first item; 'any input context' of the statement, beyond the well-typed one."""
+    if isinstance(v, dict):
+        if "n" in v:
+            return {"s": v["n"]}
+        if "s" in v:
+            return {"n": "-1e-3"}
+        if "l" in v:
+            return hostile(v["l"][0]) if v["l"] else None
+        if "c" in v:
+            return {"l": [{"c": [[k, hostile(x)] for k, x in v["c"]] + [["extra entry", {"l": []}]]}, None]}
+        return {"s": next(iter(v.values()))}     # temporal values as their text
+    if isinstance(v, bool):
+        return None
+    return {"c": []}
+
+
 def load_base(base):
-    """-> (Doc, typical input, invocable names of the unmutated model)"""
+    """-> (Doc, [typical input, hostile input], invocable names of the unmutated model)"""
     k = base_key(base)
     b = _BASES.get(k)
     if b is None:
@@ -55,7 +74,8 @@ def load_base(base):
         else:
             text = xf.gen_model(Src(prefix=list(base["gen"])))
         doc = xf.Doc(text)
-        b = (doc, doc.typical_input(), doc.invocable_names())
+        typical = doc.typical_input()
+        b = (doc, [typical, [[k, hostile(v)] for k, v in typical]], doc.invocable_names())
         if len(_BASES) > 400:
             for kk in [x for x in _BASES if x.startswith("gen:")]:
                 del _BASES[kk]
@@ -80,7 +100,37 @@ def faults_of(base):
     return f
 
 
+NEST_HEAD = '<definitions xmlns="https://www.omg.org/spec/DMN/20191111/MODEL/" namespace="n" name="m">'
+NEST_KINDS = ("context", "itemComponent", "functionDefinition", "invocation", "unknown-element", "list-literal", "parentheses")
+
+
+def nested_model(kind, n):
+    """A valid model whose only peculiarity is the nesting depth n of one construct."""
+    dec = '<decision name="d" id="d"><variable name="d"%s/>%s</decision>'
+    lit = "<literalExpression><text>%s</text></literalExpression>"
+    if kind == "context":
+        body = dec % ("", "<context><contextEntry>" * n + lit % "1" + "</contextEntry></context>" * n)
+    elif kind == "itemComponent":
+        body = ('<itemDefinition name="t">' + '<itemComponent name="c">' * n + "<typeRef>string</typeRef>" + "</itemComponent>" * n +
+                "</itemDefinition>" + dec % (' typeRef="t"', lit % "1"))
+    elif kind == "functionDefinition":
+        body = dec % ("", "<functionDefinition>" * n + lit % "1" + "</functionDefinition>" * n)
+    elif kind == "invocation":
+        body = dec % ("", "<invocation>" * n + lit % "1" + "</invocation>" * n)
+    elif kind == "unknown-element":
+        body = "<x>" * n + "</x>" * n + dec % ("", lit % "1")
+    elif kind == "list-literal":
+        body = dec % ("", lit % ("[" * n + "1" + "]" * n))
+    elif kind == "parentheses":
+        body = dec % ("", lit % ("(" * n + "1" + ")" * n))
+    else:
+        raise ValueError(kind)
+    return NEST_HEAD + body + "</definitions>"
+
+
 def mutate(case):
+    if "nest" in case:
+        return nested_model(case["nest"], case["depth"]), 0
     k = canon(case)
     m = _MUT.get(k)
     if m is None:
@@ -96,13 +146,15 @@ def mutate(case):
 
 
 def reqs_probe(case):
+    if "nest" in case:
+        return [{"op": "probe", "xml": mutate(case)[0], "inputs": [[["d", {"n": "1"}]], [["d", {"l": [None]}]]], "names": ["d"]}]
     doc, typical, names = load_base(case["base"])
-    return [{"op": "probe", "xml": mutate(case)[0], "inputs": [typical], "names": names}]
+    return [{"op": "probe", "xml": mutate(case)[0], "inputs": typical, "names": names}]
 
 
 # ---- diagnosis ----------------------------------------------------------------------------------------------------
 
-_LOC = re.compile(r"(?:^|/)([A-Za-z0-9_.-]+/src/[^:]+:\d+)$")
+_LOC = re.compile(r"(?:^|/)([A-Za-z0-9_.-]+/src/(?:(?!/src/)[^:])+:\d+)$")
 BUILTIN = {"string", "number", "boolean", "date", "time", "dateTime", "dayTimeDuration", "yearMonthDuration"}
 
 
@@ -278,6 +330,8 @@ def outcome(r):
 
 
 def describe(case):
+    if "nest" in case:
+        return "generated model with %s nested %d deep" % (case["nest"], case["depth"])
     doc = load_base(case["base"])[0]
     where = case["base"].get("file") or "generated model %s" % case["base"]["gen"]
     if "bytes" in case:
@@ -285,16 +339,23 @@ def describe(case):
     return "%s: %s" % (where, "; ".join(doc.describe(f) for f in case["faults"]) or "unmutated")
 
 
+def confirm_budget(d):
+    """10x the request budget of the quick tier (20 s), also in the thorough tier whose request budget is 60 s."""
+    return min(10 * d.timeout, 200.0)
+
+
 def judge_probe(ctx, case, resp, prof):
     r = resp[0]
     xml, applied = mutate(case)
     req = None
-    if "timeout" in r:
-        # a time-out only counts after the request was re-run alone with a 10x budget (3 attempts)
+    hang_reported = any(v["signature"].startswith("C12/hang") for v in ctx.violations)
+    if "timeout" in r and not hang_reported:
+        # a time-out only counts after the request was re-run alone with a 10x budget (3 attempts); once a hang has been
+        # reported in this run, further time-outs are not re-confirmed (each confirmation costs 30x the request budget)
         req = reqs_probe(case)[0]
         d = ctx.driver(prof)
         for _ in range(3):
-            r2 = d.safe(req, timeout=10 * d.timeout)
+            r2 = d.safe(req, timeout=confirm_budget(d))
             if "timeout" not in r2:
                 ctx.extra["slow_not_hanging"] = ctx.extra.get("slow_not_hanging", 0) + 1
                 r = r2
@@ -302,19 +363,19 @@ def judge_probe(ctx, case, resp, prof):
     if "died" in r:
         # confirm alone in a fresh driver process
         req = req or reqs_probe(case)[0]
-        fresh = Driver(prof, timeout=ctx.driver(prof).timeout)
+        fresh = Driver(prof, timeout=confirm_budget(ctx.driver(prof)))   # unbounded recursion can take a while to exhaust the stack
         try:
             fresh.start()
             r2 = fresh.safe(req)
         finally:
             fresh.stop()
-        if "died" not in r2:
+        if "died" not in r2 and "timeout" not in r2:
             ctx.extra["unconfirmed_deaths"] = ctx.extra.get("unconfirmed_deaths", 0) + 1
-            r = r2
-        else:
-            r = r2
+        r = r2
     out = outcome(r)
-    if "bytes" in case:
+    if "nest" in case:
+        labels = ["nesting", "nesting:%s" % case["nest"], "depth:%d" % case["depth"]]
+    elif "bytes" in case:
         labels = ["bytes", "bytes:" + "+".join(sorted({o[0] for o in case["bytes"]}))]
     else:
         cls = [xf.Doc.fault_class(f).split(":")[0] for f in case["faults"]]
@@ -322,7 +383,7 @@ def judge_probe(ctx, case, resp, prof):
         if applied < len(case["faults"]):
             labels.append("pair-overlap(outer-only)")
     labels.append("outcome:" + out)
-    labels.append("base:" + ("file" if "file" in case["base"] else "generated"))
+    labels.append("base:" + ("generated" if "nest" in case or "gen" in case["base"] else "file"))
     nontrivial = xf.well_formed(xml)
     labels.append("well-formed" if nontrivial else "not-xml")
     if prof == "release" and len(case.get("faults", ())) == 1:
@@ -332,7 +393,8 @@ def judge_probe(ctx, case, resp, prof):
     if ctx.sample_slots.get(labels[0], 0) < 2 or out in ("panic", "died", "timeout"):
         sample = {"case": describe(case)[:300], "profile": prof, "outcome": out,
                   "answer": canon({k: v for k, v in r.items() if k != "results"})[:300]}
-    ctx.note(key=h([base_key(case["base"]), case.get("faults"), case.get("bytes")]), nontrivial=nontrivial, labels=labels, sample=sample)
+    key = h(case) if "nest" in case else h([base_key(case["base"]), case.get("faults"), case.get("bytes")])
+    ctx.note(key=key, nontrivial=nontrivial, labels=labels, sample=sample)
     fail = verdict(ctx, case, r, out, xml, prof)
     if fail is not None and fail.sig not in ctx.open_sigs and any(v["signature"] == fail.sig for v in ctx.violations):
         # one VIOLATION per crash site and run; further cases with the same signature are only counted
@@ -353,20 +415,26 @@ def verdict(ctx, case, r, out, xml, prof):
         if kinds and code in (-6, -11):
             return Fail("C12/stack-overflow/" + kinds[0], "[%s] %s\n  the process was killed by signal %s; the mutated model contains: %s" % (
                 prof, describe(case), code, ", ".join(kinds)), died=code, cycles=kinds)
+        if "nest" in case and code in (-6, -11) and case["depth"] >= 256:
+            return Fail("C12/stack-overflow/deep-nesting", "[%s] %s (%d characters)\n  the process was killed by signal %s" % (
+                prof, describe(case), len(xml), code), died=code)
         rec = recursive_functions(xml) if code in (-6, -11) else []
         if rec:
             return Fail("C12/stack-overflow/recursive-function", "[%s] %s\n  the process was killed by signal %s; no cyclic requirement, "
                         "but these knowledge models call themselves: %s" % (prof, describe(case), code, ", ".join(rec)), died=code, recursive=rec)
         return Fail("C12/abort", "[%s] %s\n  the process died (exit %s) and the mutated model contains no cyclic requirement" % (
             prof, describe(case), code), died=code)
+    if out == "timeout" and case.get("nest") == "list-literal":
+        return Fail("C12/hang/nested-list", "[%s] %s\n  no answer within %.0f s, three times, running alone" % (
+            prof, describe(case), confirm_budget(ctx.driver(prof))))
     if out == "timeout":
-        return Fail("C12/hang", "[%s] %s\n  no answer within %.0f s, three times, running alone" % (prof, describe(case), 10 * ctx.driver(prof).timeout))
+        return Fail("C12/hang", "[%s] %s\n  no answer within %.0f s, three times, running alone" % (prof, describe(case), confirm_budget(ctx.driver(prof))))
     if out == "other":
         raise Inconclusive("driver answered %r for %s" % (r, describe(case)))
     if out == "built":
         names = r.get("invocables") or []
-        if not isinstance(r.get("results"), list) or len(r["results"]) != 2 * len(names):
-            return Fail("C12/no-value", "[%s] %s\n  %d invocables x 2 inputs but %r results" % (
+        if not isinstance(r.get("results"), list) or len(r["results"]) != 3 * len(names):
+            return Fail("C12/no-value", "[%s] %s\n  %d invocables x 3 inputs but %r results" % (
                 prof, describe(case), len(names), len(r.get("results") or [])))
     return None
 
@@ -424,11 +492,24 @@ def gen_bytes(ctx):
     return gen
 
 
-def single_cases(base, stride=1, offset=0):
+RISKY_OPS = ("href", "typeref-el", "el-rename")   # the classes that create cycles: known stack overflows kill the driver
+
+
+def single_cases(base, stride=1, offset=0, risky=None):
+    """risky=None: all faults; True/False: only the classes that can / cannot create a requirement cycle (they are sent
+    in small batches because a dead driver makes the engine repeat the whole batch one by one)."""
     doc = load_base(base)[0]
+    all_risky = bool(cycle_kinds(doc.text))
     for i, f in enumerate(doc.faults()):
         if stride == 1 or i % stride == offset:
-            yield {"base": base, "faults": [f]}
+            if risky is None or risky == (all_risky or f["op"] in RISKY_OPS):
+                yield {"base": base, "faults": [f]}
+
+
+def enumerate_singles(ctx, base, name, exhaustive, stride=1, offset=0):
+    ctx.enumerate(ctx.p_single, single_cases(base, stride, offset, risky=False), batch=batch_for(base), name=name, exhaustive=exhaustive)
+    if not ctx.stop():
+        ctx.enumerate(ctx.p_single, single_cases(base, stride, offset, risky=True), batch=6, name=name, exhaustive=exhaustive)
 
 
 def batch_for(base):
@@ -443,42 +524,38 @@ def plan(ctx):
     files = all_files()
     if ctx.thorough():
         return files, []
-    sizes = {f: os.path.getsize(os.path.join(REPO, f)) for f in files}
-    small = [f for f in files if sizes[f] <= 12000]
-    big = [f for f in files if sizes[f] > 12000]
-    want, budget = 25, 28000
+    counts = {f: sum(1 for _ in load_base({"file": f})[0].faults()) for f in files}
+    small = [f for f in files if counts[f] <= 6000]
+    big = [f for f in files if counts[f] > 6000]
+    want, budget = 25, 34000
     stride = max(1, len(small) // want)
-    order = [small[(ctx.seed + i * stride) % len(small)] for i in range(len(small))]
     chosen, total = [], 0
-    for f in order:
-        if f in chosen:
-            continue
-        n = sum(1 for _ in load_base({"file": f})[0].faults())
-        if total + n > budget:
-            continue
-        chosen.append(f)
-        total += n
+    for i in range(len(small)):
+        f = small[(ctx.seed * (1 + stride * want) + i * stride) % len(small)]
+        if f not in chosen and total + counts[f] <= budget:
+            chosen.append(f)
+            total += counts[f]
         if len(chosen) >= want:
             break
     sampled = []
     for i in range(2):
         f = big[(ctx.seed * 2 + i) % len(big)]
-        n = sum(1 for _ in load_base({"file": f})[0].faults())
-        st = max(1, n // 900)
+        st = max(1, counts[f] // 900)
         sampled.append((f, st, ctx.seed % st))
     return sorted(chosen), sampled
 
 
 def setup(ctx):
     ctx.rule = ("cases: a shipped .dmn file or a generated model + one structural fault (every class of oracles/xml_faults.py at every "
-                "position), a pair of faults, or 1-3 byte-level corruptions; each probed on both builds with the empty and the file's typical "
-                "input for every invocable name of the unmutated and mutated model. oracle: any error or value passes; panic, process death "
+                "position), a pair of faults, or 1-3 byte-level corruptions; each probed on both builds with the empty, the file's typical "
+                "and a wrong-typed input for every invocable name of the unmutated and mutated model. oracle: any error or value passes; panic, process death "
                 "(re-run alone in a fresh driver) or hang (re-run alone 3x with 10x budget) fails. non-trivial: the mutated text is still "
                 "well-formed XML according to expat (the fault reached the DMN layer); distinct by (base, faults)")
     ctx.assumptions = ["expat's well-formedness verdict is used only for the non-triviality count, never for the verdict",
                        "texts that are not valid UTF-8 cannot reach dmntk_model::parse(&str); corrupted bytes are decoded with U+FFFD",
                        "SIGABRT/SIGSEGV of the driver while the mutated model contains a cyclic requirement is attributed to that cycle"]
     ctx.p_single = ctx.register(Part("single", None, reqs_probe, judge_probe, profile="both"))
+    ctx.p_nest = ctx.register(Part("nesting", None, reqs_probe, judge_probe, profile="both"))
     ctx.p_pair = ctx.register(Part("pair", gen_pair(ctx), reqs_probe, judge_probe, profile="both"))
     ctx.p_bytes = ctx.register(Part("bytes", gen_bytes(ctx), reqs_probe, judge_probe, profile="both"))
     ctx.window = [{"gen": []}]   # replaced by run(); replay does not use it
@@ -501,10 +578,16 @@ def run(ctx):
         gens.append({"gen": list(s.choices)})
     gens.insert(0, {"gen": []})
     for b in gens:
-        ctx.enumerate(ctx.p_single, single_cases(b), batch=batch_for(b),
-                      name="all single structural faults of %d generated models" % len(gens), exhaustive=True)
+        enumerate_singles(ctx, b, "all single structural faults of %d generated models" % len(gens), True)
         if ctx.stop():
             return
+    # nesting depth grid (valid models; the deepest list literal is a thorough-tier case because confirming a hang takes minutes)
+    depths = {k: [16, 128, 1024, 4096] + ([20000] if ctx.thorough() else []) for k in NEST_KINDS}
+    depths["list-literal"] = [4, 8, 16, 20] + ([48] if ctx.thorough() else [])
+    ctx.enumerate(ctx.p_nest, ({"nest": k, "depth": n} for n in sorted({n for v in depths.values() for n in v}) for k in NEST_KINDS if n in depths[k]),
+                  batch=1, name="nesting depth grid: %s x depths" % "/".join(NEST_KINDS), exhaustive=True)
+    if ctx.stop():
+        return
     # every shipped model as it is (a model that is shipped and cannot be loaded without a crash is a finding of its own)
     ctx.enumerate(ctx.p_single, ({"base": {"file": f}, "faults": []} for f in all_files()), batch=10,
                   name="all %d shipped models unmutated" % nfiles, exhaustive=True)
@@ -515,13 +598,12 @@ def run(ctx):
             else "all single structural faults of %d of %d shipped models (subset rotates with the seed)" % (len(complete), nfiles))
     for f in complete:
         b = {"file": f}
-        ctx.enumerate(ctx.p_single, single_cases(b), batch=batch_for(b), name=name, exhaustive=ctx.thorough())
+        enumerate_singles(ctx, b, name, ctx.thorough())
         if ctx.stop():
             return
     for f, st, off in sampled:
         b = {"file": f}
-        ctx.enumerate(ctx.p_single, single_cases(b, st, off), batch=batch_for(b),
-                      name="every k-th single fault of large shipped models (quick tier only)", exhaustive=False)
+        enumerate_singles(ctx, b, "every k-th single fault of large shipped models (quick tier only)", False, st, off)
         if ctx.stop():
             return
     if ctx.w == 0:
